@@ -463,9 +463,9 @@ def fmt_arguments(m, args_obj, out):
             if b & 8:
                 nxt = int.from_bytes(t[j:j + 2], 'little')
                 j += 2
-            if b & 0x36 or (flags & ~(1 << 23) & 0xFFE00000 & ~(0x20 << 24)):
-                # widths / precision not modelled
-                pass
+            if b & 0x06:
+                # explicit width / precision in a placeholder changes the rendered text: not modelled, so refuse rather than ignore
+                raise Unsupported('format placeholder with width / precision')
             alternate = bool(flags & (1 << 23))
             fmt_argument(m, args[nxt], out, alternate)
             nxt += 1
@@ -563,9 +563,40 @@ def debug_str(m, elems, out):
                 r += ch
         _lit(out, r)
     else:
-        # symbolic content: keep bytes verbatim (escapes not modelled); flagged for the specs
-        m.ctx.events.append(('debug_str_symbolic',))
-        out.extend(elems)
+        # symbolic content: <str as Debug> escapes per character; exact for ASCII (one fork per class), non-ASCII symbolic bytes
+        # would need char::is_printable and are refused
+        for e in elems:
+            if not e.sym:
+                ch = e.v
+                if ch >= 0x80:
+                    out.append(e)       # concrete non-ASCII bytes next to symbolic ones: printable is assumed (flagged)
+                    m.ctx.events.append(('debug_str_nonascii_verbatim',))
+                    continue
+                _lit(out, {0x22: '\\"', 0x5C: '\\\\', 0x0A: '\\n', 0x0D: '\\r', 0x09: '\\t', 0x00: '\\0'}.get(
+                    ch, ('\\u{%x}' % ch) if (ch < 0x20 or ch == 0x7F) else chr(ch)))
+                continue
+            z = e.v
+            if not m.ctx.branch(z3.ULT(z, 0x80)):
+                raise Unsupported('Debug of a string with symbolic non-ASCII bytes')
+            if m.ctx.branch(z3.Or(z == 0x22, z == 0x5C)):
+                _lit(out, '\\')
+                out.append(e)
+            elif m.ctx.branch(z3.Or(z3.ULT(z, 0x20), z == 0x7F)):
+                for cv, txt in ((0x0A, '\\n'), (0x0D, '\\r'), (0x09, '\\t'), (0x00, '\\0')):
+                    if m.ctx.branch(z == cv):
+                        _lit(out, txt)
+                        break
+                else:
+                    # \u{h} or \u{hh}: lower-case hex without leading zeros
+                    _lit(out, '\\u{')
+                    if m.ctx.branch(z3.UGE(z, 0x10)):
+                        hi = z3.LShR(z, 4)
+                        out.append(Int('u8', z3.simplify(z3.If(z3.ULT(hi, 10), hi + 0x30, hi + 0x57))))
+                    lo = z & 15
+                    out.append(Int('u8', z3.simplify(z3.If(z3.ULT(lo, 10), lo + 0x30, lo + 0x57))))
+                    _lit(out, '}')
+            else:
+                out.append(e)
     _lit(out, '"')
 
 
